@@ -395,3 +395,65 @@ def _(tier, seed):
             if len(failures) >= 3:
                 break
     return dict(evaluations=evals, distinct=len(distinct), failures=failures)
+
+
+# -- page boxes: MediaBox / CropBox given directly, through one reference, or with referenced elements are read alike; damage falls back ---------
+from pyvc.extract import real_module
+pt_ = real_module("pdfminer.pdftypes")
+
+
+class _BoxValue(T.Sort):
+    """a box value as a document can write it: array of numbers, reference to such an array, array with referenced elements, or damage"""
+    KINDS = ["direct", "indirect-array", "indirect-elements", "mixed-elements", "missing", "not-an-array", "three-numbers", "name-inside"]
+    def fresh(self, ctx, name):
+        from pyvc.values import SymFn
+        k = ctx.choose(self.KINDS, "box-kind")
+        nums = [ctx.fresh_real("%s.%d" % (name, i)) for i in range(4)]
+
+        def ref(n, target):
+            o = SObj(pt_.PDFObjRef, {"objid": n}, "ref%d" % n)
+            o.f["resolve"] = SymFn(lambda I, default=None, target=target: target, "resolve")
+            return o
+        if k == "direct":
+            v = list(nums)
+        elif k == "indirect-array":
+            v = ref(50, list(nums))
+        elif k == "indirect-elements":
+            v = [ref(51 + i, x) for i, x in enumerate(nums)]
+        elif k == "mixed-elements":
+            v = [nums[0], ref(51, nums[1]), nums[2], ref(52, nums[3])]
+        elif k == "missing":
+            v = None
+        elif k == "not-an-array":
+            v = 7
+        elif k == "three-numbers":
+            v = list(nums[:3])
+        else:
+            v = [nums[0], real_module("pdfminer.psparser").LIT("Nm"), nums[2], nums[3]]
+        BOXMETA[0] = (k, nums)
+        return v
+    def sample(self, rng):
+        return None
+    def from_model(self, ev, v):
+        return BOXMETA[0][0]
+
+
+BOXMETA = [None]
+for _fn, _dflt in (("_parse_mediabox", "us-letter"), ("_parse_cropbox", "mediabox")):
+    c = contract("pdfminer.pdfpage:PDFPage." + _fn, props=["C04", "C13"])
+    c.param("self", T.Obj("pdfminer.pdfpage:PDFPage")).param("value", _BoxValue())
+    if _fn == "_parse_cropbox":
+        c.param("mediabox", T.RealTup(4))
+    c.skip_cross = True
+    c.returns(T.RealTup(4))
+
+    def _spec(value, result, mediabox=None, _dflt=_dflt):
+        k, nums = BOXMETA[0]
+        if k in ("direct", "indirect-array", "indirect-elements", "mixed-elements"):
+            return eq(tuple(result), tuple(nums))
+        fallback = (0, 0, 612, 792) if _dflt == "us-letter" else mediabox
+        return eq(tuple(result), tuple(fallback))
+    if _fn == "_parse_cropbox":
+        c.ens("the-four-numbers-however-they-are-referenced-else-the-media-box", (lambda _s: lambda value, result, mediabox: _s(value, result, mediabox))(_spec))
+    else:
+        c.ens("the-four-numbers-however-they-are-referenced-else-US-letter", (lambda _s: lambda value, result: _s(value, result))(_spec))
